@@ -181,7 +181,30 @@ static void classify_small(Case& c)
     }
 }
 
+// graded matrices: singularity / conditioning from the singular values in long double; "nonsingular" (success required)
+// only when the condition number is far from 1/u so that no computed pivot can vanish through rounding
+static void classify_graded(Case& c)
+{
+    const int n = c.A.rows();
+    MatL B = (c.A - CL(c.shift) * MatCL::Identity(n, n)).real();
+    Eigen::JacobiSVD<MatL> svd(B);
+    const LD smax = svd.singularValues()[0], smin = svd.singularValues()[n - 1];
+    if (!(smin > 0) || smax / smin > 1e12L)
+    {
+        c.expect = SINGULAR_UNKNOWN;
+        c.cond = INFINITY;
+    }
+    else
+    {
+        c.expect = NONSINGULAR;
+        c.cond = smax / smin * n;
+    }
+}
+
 static const double D4[4] = {-1, 0, 1, 2};
+// graded alphabet: the pivot tests of the Bunch-Kaufman strategy compare entries of very different magnitude
+static const double G7[7] = {0, 1, -1, 0.3, 1e-4, 1e4, -1e8};
+static const double G5[5] = {0, 1, 0.3, 1e4, -1e8};
 static const double B2[2] = {0, 1};
 static const double FIXED_SHIFT[4] = {0, 1, -1, 0.5};
 
@@ -227,7 +250,7 @@ static std::vector<LD> shifts_for(const MatCL& A, bool reduced)
 }
 
 template <typename S>
-static void small_section(Runner& R, const std::string& sec, uint64_t N, std::function<MatCL(uint64_t)> gen, bool reduced)
+static void small_section(Runner& R, const std::string& sec, uint64_t N, std::function<MatCL(uint64_t)> gen, bool reduced, bool graded = false)
 {
     R.run(sec, N, [=](uint64_t idx, Local& L) {
         MatCL A = gen(idx);
@@ -238,9 +261,9 @@ static void small_section(Runner& R, const std::string& sec, uint64_t N, std::fu
             c.shift = sh;
             c.desc = "A=" + mat_str(A.real()) + (Eigen::NumTraits<S>::IsComplex ? "+i*" + mat_str(A.imag()) : "") + ":shift=" + gnum(sh);
             c.replay = sec + "#" + num(idx);
-            classify_small(c);
+            if (graded) classify_graded(c); else classify_small(c);
             L.count(c.expect == NONSINGULAR ? "nonsingular_cases" : "singular_cases");
-            run_case<S>(c, L, !reduced, !reduced);
+            run_case<S>(c, L, !reduced, !reduced || graded);
         }
         L.count("distinct_by_construction");
         if (idx == 1234 % N) L.sample("{\"scalar\": \"" + std::string(SN<S>::n()) + "\", \"A\": \"" + mat_str(A.real()) + "\", \"shifts\": \"0,1,-1,0.5,diag\", \"layouts\": \"Lower/Upper x Col/RowMajor, other triangle NaN\"}", 12);
@@ -414,6 +437,56 @@ static void wrapper_case(const MatCL& A, LD shift, bool singular, const std::str
     }
 }
 
+
+// ------------------------------------------------------------------ histories on ONE factorization object
+// The class documents compute() as (re)computing the factorization: a BKLDLT object that has already factorized
+// (M1, s1) and then factorizes (M2, s2) must behave exactly like a fresh object given (M2, s2) - status and solve()
+// bit for bit (the same arithmetic is executed). A state is the object after a history of compute() calls; the
+// differential oracle compares the state reached from a non-initial state with the one reached from the initial state.
+struct Cfg10 { Eigen::MatrixXd M; double shift; std::string d; };
+static void reuse_check(Spectra::BKLDLT<double>& used, const Cfg10& last, const std::string& hist, const std::string& replay, Local& L)
+{
+    const int n = last.M.rows();
+    Spectra::BKLDLT<double> fresh;
+    fresh.compute(last.M, Eigen::Lower, last.shift);
+    L.evaluations++;
+    const std::string key = "BKLDLT:reuse:" + hist;
+    if (used.info() != fresh.info())
+    {
+        L.violate(key + ":status-differs", replay, std::string("reused object reports ") + info_name(used.info()) + ", a fresh object " + info_name(fresh.info()));
+        return;
+    }
+    if (fresh.info() != CompInfo::Successful) { L.count("reuse_last_singular"); return; }
+    for (int r = 0; r <= n; r++)
+    {
+        Eigen::VectorXd b = Eigen::VectorXd::Zero(n);
+        if (r < n) b[r] = 1; else b.setOnes();
+        Eigen::VectorXd xu, xf = fresh.solve(b);
+        try { xu = used.solve(b); }
+        catch (const std::exception& e) { L.violate(key + ":exception", replay, e.what()); return; }
+        if (xu.size() != xf.size() || std::memcmp(xu.data(), xf.data(), sizeof(double) * n) != 0)
+        {
+            L.violate(key + ":solve-differs", replay, "solve(rhs#" + num(r) + ") of the reused object differs from a fresh object's: " + mat_str(MatL(toL(xu).transpose())) + " vs " + mat_str(MatL(toL(xf).transpose())));
+            return;
+        }
+    }
+}
+static std::vector<Cfg10> reuse_alphabet(int n, bool all_shifts)
+{
+    std::vector<Cfg10> v;
+    const uint64_t N = ipow(4, n * (n + 1) / 2);
+    for (uint64_t i = 0; i < N; i++)
+    {
+        MatCL A = sym_from(i, n, D4, 4);
+        for (double sh : {0.0, 0.5})
+        {
+            if (!all_shifts && sh != 0.0) continue;
+            v.push_back({Eigen::MatrixXd(A.real().cast<double>()), sh, "A=" + mat_str(A.real()) + ":shift=" + std::string(gnum(sh))});
+        }
+    }
+    return v;
+}
+
 int main(int argc, char** argv)
 {
     Config cfg = parse_args(argc, argv, 240, 1500);
@@ -431,6 +504,9 @@ int main(int argc, char** argv)
     small_section<std::complex<float>>(R, "herm_cfloat_n2", 9 * 5, [](uint64_t i) { return herm_from(i, 2); }, false);
     family_section<double>(R);
     family_section<float>(R);
+    // graded entries (magnitudes 1e-4 .. 1e8): every symmetric 3x3 over G7; 4x4 over G5 in the thorough tier
+    small_section<double>(R, "sym_double_G7_n3", ipow(7, 6), [](uint64_t i) { return sym_from(i, 3, G7, 7); }, true, true);
+    if (th) small_section<double>(R, "sym_double_G5_n4", ipow(5, 10), [](uint64_t i) { return sym_from(i, 4, G5, 5); }, true, true);
 
     // exactly singular sub-family + wrappers
     auto sing = exact_singular_cases();
@@ -474,6 +550,80 @@ int main(int argc, char** argv)
             L.count("distinct_by_construction");
         });
     }
+
+    // histories: every ordered pair (thorough: triple for n<=2) of configurations on one object, sizes mixed
+    {
+        static std::vector<Cfg10> a1 = reuse_alphabet(1, true), a2 = reuse_alphabet(2, true), a3 = reuse_alphabet(3, false);
+        static std::vector<Cfg10> small;  // n = 1 and n = 2, both shifts
+        small = a1; small.insert(small.end(), a2.begin(), a2.end());
+        // (i) every ordered pair over the 1x1 and 2x2 configurations (sizes change between calls)
+        R.run("reuse_pairs_n12", uint64_t(small.size()) * small.size(), [&](uint64_t idx, Local& L) {
+            const Cfg10 &c1 = small[idx / small.size()], &c2 = small[idx % small.size()];
+            Spectra::BKLDLT<double> f;
+            f.compute(c1.M, Eigen::Lower, c1.shift);
+            f.compute(c2.M, Eigen::Lower, c2.shift);
+            reuse_check(f, c2, c1.d + ";" + c2.d, "reuse_pairs_n12#" + num(idx), L);
+            L.count("distinct_by_construction");
+            if (idx == 4321) L.sample("{\"history\": \"compute(" + c1.d + "); compute(" + c2.d + "); solve\", \"oracle\": \"bit-identical to a fresh object\"}", 12);
+        });
+        // (ii) every 3x3 matrix over {-1,0,1,2} preceded by / followed by every member of a second alphabet that contains
+        //      every pivot pattern (all 2x2 configurations and every 16th 3x3 matrix; thorough: every 3x3 matrix)
+        static std::vector<Cfg10> second;
+        second = a2;
+        for (size_t i = 0; i < a3.size(); i += (th ? 1 : 16)) second.push_back(a3[i]);
+        R.run("reuse_pairs_n3", uint64_t(a3.size()) * second.size(), [&](uint64_t idx, Local& L) {
+            const Cfg10 &c3 = a3[idx / second.size()], &cs = second[idx % second.size()];
+            {
+                Spectra::BKLDLT<double> f;
+                f.compute(cs.M, Eigen::Lower, cs.shift);
+                f.compute(c3.M, Eigen::Lower, c3.shift);
+                reuse_check(f, c3, cs.d + ";" + c3.d, "reuse_pairs_n3#" + num(idx), L);
+            }
+            {
+                Spectra::BKLDLT<double> f;
+                f.compute(c3.M, Eigen::Lower, c3.shift);
+                f.compute(cs.M, Eigen::Lower, cs.shift);
+                reuse_check(f, cs, c3.d + ";" + cs.d, "reuse_pairs_n3#" + num(idx), L);
+            }
+            L.count("distinct_by_construction");
+        });
+        // (iii) triples over the 2x2 configurations at shift 0 (64^3)
+        static std::vector<Cfg10> a2s = reuse_alphabet(2, false);
+        R.run("reuse_triples_n2", ipow(a2s.size(), 3), [&](uint64_t idx, Local& L) {
+            const size_t m = a2s.size();
+            const Cfg10 &c1 = a2s[idx / (m * m)], &c2 = a2s[(idx / m) % m], &c3 = a2s[idx % m];
+            Spectra::BKLDLT<double> f;
+            f.compute(c1.M, Eigen::Lower, c1.shift);
+            f.compute(c2.M, Eigen::Lower, c2.shift);
+            f.compute(c3.M, Eigen::Lower, c3.shift);
+            reuse_check(f, c3, c1.d + ";" + c2.d + ";" + c3.d, "reuse_triples_n2#" + num(idx), L);
+            L.count("distinct_by_construction");
+        });
+        // (iv) the dense wrapper: set_shift(s1); set_shift(s2) on one DenseSymShiftSolve object against a fresh one
+        R.run("reuse_set_shift_n3", a3.size(), [&](uint64_t idx, Local& L) {
+            const Cfg10& c = a3[idx];
+            const double sh[] = {0, 0.5, -1, 1, 2, 0.37};
+            for (double s1 : sh)
+                for (double s2 : sh)
+                {
+                    Spectra::DenseSymShiftSolve<double> used(c.M), fresh(c.M);
+                    bool t1 = false, tu = false, tf = false;
+                    try { used.set_shift(s1); } catch (const std::invalid_argument&) { t1 = true; }
+                    try { used.set_shift(s2); } catch (const std::invalid_argument&) { tu = true; }
+                    try { fresh.set_shift(s2); } catch (const std::invalid_argument&) { tf = true; }
+                    L.evaluations++;
+                    const std::string key = "wrapper:reuse:" + c.d + ":set_shift(" + std::string(gnum(s1)) + ");set_shift(" + std::string(gnum(s2)) + ")";
+                    if (tu != tf) { L.violate(key + ":status-differs", "reuse_set_shift_n3#" + num(idx), "second set_shift() " + std::string(tu ? "threw" : "did not throw") + " but a fresh wrapper " + (tf ? "throws" : "does not")); continue; }
+                    if (tf) continue;
+                    Eigen::Vector3d b(1, 1, 1), xu, xf;
+                    used.perform_op(b.data(), xu.data());
+                    fresh.perform_op(b.data(), xf.data());
+                    if (std::memcmp(xu.data(), xf.data(), sizeof(double) * 3) != 0)
+                        L.violate(key + ":solve-differs", "reuse_set_shift_n3#" + num(idx), "perform_op after the second set_shift() differs from a fresh wrapper's");
+                }
+            L.count("distinct_by_construction");
+        });
+    }
     if (th)
     {
         small_section<double>(R, "sym_double_B2_n5", ipow(2, 15), [](uint64_t i) { return sym_from(i, 5, B2, 2); }, false);
@@ -483,9 +633,9 @@ int main(int argc, char** argv)
     }
 
     return R.finish(
-        "every symmetric matrix over {-1,0,1,2} for n=1..4 (n=4: reduced shift/layout set in quick, full in thorough), over {0,1} for n=5 (thorough), every Hermitian matrix with diagonal in {-1,0,1} and off-diagonal in {0,1,i,1+i,-1} for n<=3; "
+        "every symmetric 3x3 matrix over the graded alphabet {0,1,-1,0.3,1e-4,1e4,-1e8} (4x4 over {0,1,0.3,1e4,-1e8} in thorough; success required when cond <= 1e12); every symmetric matrix over {-1,0,1,2} for n=1..4 (n=4: reduced shift/layout set in quick, full in thorough), over {0,1} for n=5 (thorough), every Hermitian matrix with diagonal in {-1,0,1} and off-diagonal in {0,1,i,1+i,-1} for n<=3; "
         "shifts {0,1,-1,1/2} + every diagonal entry; {Lower,Upper} x {ColMajor,RowMajor} with the unused strict triangle set to NaN; rhs e_i and ones; nine structured families for EVERY n in 1..80 x 5 shifts; "
-        "the sub-family whose zero pivot is met without rounding (NumericalIssue required) and the dense wrappers DenseSymShiftSolve / SymShiftInvert<dense,dense>. Singularity decided by an extended-precision determinant "
+        "the sub-family whose zero pivot is met without rounding (NumericalIssue required) and the dense wrappers DenseSymShiftSolve / SymShiftInvert<dense,dense>; histories on one object: every ordered pair of 1x1/2x2 configurations, every 3x3 matrix before/after a second alphabet, every triple of 2x2 matrices, every pair of shifts on one wrapper - status and solve() bit-identical to a fresh object. Singularity decided by an extended-precision determinant "
         "(exact values are multiples of 2^-n, threshold 1e-3)",
         {"long double LU/SVD of Eigen decide singularity and conditioning", "residual allowance 50*n*u*(||A-sI|| ||x|| + ||b||) fixed a priori", "for exactly singular matrices outside the listed sub-family no outcome is required (rounding may hide the zero pivot); they are counted"});
 }
